@@ -46,7 +46,7 @@ fn c03_configs(tier: Tier) -> Vec<c03::C03> {
                         cfg.slow_ms = Some(20);
                         cfg.slow_rate = 0.5;
                     }
-                    v.push(c03::C03 { cfg, callers: tier.pick(3, 4), max_ticks: tier.pick(4, 5), max_drops: 1, max_force: 1, grid: 10 });
+                    v.push(c03::C03 { cfg, callers: tier.pick(3, 4), max_ticks: tier.pick(4, 5), max_drops: 1, max_force: 1, grid: 10, nested: 0 });
                 }
             }
             if fallback {
@@ -57,15 +57,22 @@ fn c03_configs(tier: Tier) -> Vec<c03::C03> {
                 cfg.fallback_gated = true;
                 cfg.window_size = 1;
                 cfg.min_calls = Some(1);
-                v.push(c03::C03 { cfg, callers: 3, max_ticks: tier.pick(2, 4), max_drops: 0, max_force: 1, grid: 10 });
+                v.push(c03::C03 { cfg, callers: 3, max_ticks: tier.pick(2, 4), max_drops: 0, max_force: 1, grid: 10, nested: 0 });
             }
+            // emulated lock contention, including a caller polled from inside the announcement
+            // of the opening
+            let mut cfg = base_cfg(time_based);
+            cfg.fallback = fallback;
+            cfg.window_size = 1;
+            cfg.min_calls = Some(1);
+            v.push(c03::C03 { cfg, callers: 3, max_ticks: 1, max_drops: 0, max_force: 1, grid: 10, nested: tier.pick(1, 2) });
             // "stay open until closed by hand": wait_duration_in_open = Duration::MAX
             let mut cfg = base_cfg(time_based);
             cfg.fallback = fallback;
             cfg.window_size = 1;
             cfg.min_calls = Some(1);
             cfg.wait_ms = handle::WAIT_FOREVER;
-            v.push(c03::C03 { cfg, callers: 3, max_ticks: tier.pick(2, 3), max_drops: 0, max_force: 1, grid: 10 });
+            v.push(c03::C03 { cfg, callers: 3, max_ticks: tier.pick(2, 3), max_drops: 0, max_force: 1, grid: 10, nested: 0 });
             // the same with everything in the seconds range: wait 1.01 s, time window 10.1 s
             let mut cfg = base_cfg(time_based);
             cfg.fallback = fallback;
@@ -73,7 +80,7 @@ fn c03_configs(tier: Tier) -> Vec<c03::C03> {
             cfg.min_calls = Some(1);
             cfg.wait_ms = 1010;
             cfg.window_ms = 10_100;
-            v.push(c03::C03 { cfg, callers: 3, max_ticks: tier.pick(4, 5), max_drops: 0, max_force: 1, grid: 1010 });
+            v.push(c03::C03 { cfg, callers: 3, max_ticks: tier.pick(4, 5), max_drops: 0, max_force: 1, grid: 1010, nested: 0 });
             // a short wait (one grid step): open, wait, trial, the trial outlasts another wait
             // and fails, re-open - the shield must start again from the re-opening - all
             // within the depth bound
@@ -82,7 +89,7 @@ fn c03_configs(tier: Tier) -> Vec<c03::C03> {
             cfg.window_size = 1;
             cfg.min_calls = Some(1);
             cfg.wait_ms = 10;
-            v.push(c03::C03 { cfg, callers: 3, max_ticks: tier.pick(4, 5), max_drops: 0, max_force: 1, grid: 10 });
+            v.push(c03::C03 { cfg, callers: 3, max_ticks: tier.pick(4, 5), max_drops: 0, max_force: 1, grid: 10, nested: 0 });
         }
     }
     v
@@ -94,16 +101,23 @@ fn c09_configs(tier: Tier) -> Vec<c09::C09> {
         for permitted in [1usize, 2] {
             let mut cfg = base_cfg(time_based);
             cfg.permitted = permitted;
-            v.push(c09::C09 { cfg: cfg.clone(), callers: tier.pick(3, 4).max(permitted + 2), max_ticks: 2, max_drops: 1, prepared: true, straggler: false, nested: 0, grid: 10 });
+            v.push(c09::C09 { cfg: cfg.clone(), callers: tier.pick(3, 4).max(permitted + 2), max_ticks: 2, max_drops: 1, prepared: true, straggler: false, nested: 0, grid: 10, max_force: 0 });
             if time_based && permitted == 2 {
                 // a half-open period that lasts longer than the (short) time window
                 let mut short = cfg.clone();
                 short.window_ms = 10;
-                v.push(c09::C09 { cfg: short, callers: 3, max_ticks: 2, max_drops: 0, prepared: true, straggler: false, nested: 0, grid: 10 });
+                v.push(c09::C09 { cfg: short, callers: 3, max_ticks: 2, max_drops: 0, prepared: true, straggler: false, nested: 0, grid: 10, max_force: 0 });
             }
             if permitted == 2 {
                 // callers 0,1 are used by the prelude; 2,3,4 arrive in the second half-open period
-                v.push(c09::C09 { cfg: cfg.clone(), callers: 5, max_ticks: 0, max_drops: 1, prepared: true, straggler: true, nested: 0, grid: 10 });
+                v.push(c09::C09 { cfg: cfg.clone(), callers: 5, max_ticks: 0, max_drops: 1, prepared: true, straggler: true, nested: 0, grid: 10, max_force: 0 });
+            }
+            // the breaker is forced open again while trial calls of a half-open period are still
+            // running; the wait is one grid step
+            {
+                let mut f = cfg.clone();
+                f.wait_ms = 10;
+                v.push(c09::C09 { cfg: f, callers: permitted + 2, max_ticks: 2, max_drops: 0, prepared: true, straggler: false, nested: 0, grid: 10, max_force: 1 });
             }
             // a custom failure classifier (a type-changing builder call that copies every other
             // setting by hand), installed after and before the other settings
@@ -111,23 +125,23 @@ fn c09_configs(tier: Tier) -> Vec<c09::C09> {
                 let mut cc = cfg.clone();
                 cc.custom_classifier = true;
                 cc.classifier_first = classifier_first;
-                v.push(c09::C09 { cfg: cc, callers: permitted + 2, max_ticks: 1, max_drops: 0, prepared: true, straggler: false, nested: 0, grid: 10 });
+                v.push(c09::C09 { cfg: cc, callers: permitted + 2, max_ticks: 1, max_drops: 0, prepared: true, straggler: false, nested: 0, grid: 10, max_force: 0 });
             }
             if permitted == 2 {
                 // everything in the seconds range: wait 3.03 s, time window 10.1 s
                 let mut sec = cfg.clone();
                 sec.wait_ms = 3030;
                 sec.window_ms = 10_100;
-                v.push(c09::C09 { cfg: sec, callers: 4, max_ticks: 2, max_drops: 0, prepared: true, straggler: false, nested: 0, grid: 1010 });
+                v.push(c09::C09 { cfg: sec, callers: 4, max_ticks: 2, max_drops: 0, prepared: true, straggler: false, nested: 0, grid: 1010, max_force: 0 });
             }
             // emulated lock contention: a caller is polled from inside another caller's critical
             // section (admission, outcome recording), as a second thread reaching the lock would be
-            v.push(c09::C09 { cfg: cfg.clone(), callers: permitted + 2, max_ticks: 1, max_drops: 0, prepared: true, straggler: false, nested: tier.pick(1, 2), grid: 10 });
+            v.push(c09::C09 { cfg: cfg.clone(), callers: permitted + 2, max_ticks: 1, max_drops: 0, prepared: true, straggler: false, nested: tier.pick(1, 2), grid: 10, max_force: 0 });
             if tier == Tier::Thorough {
                 let mut cfg2 = cfg.clone();
                 cfg2.window_size = 1;
                 cfg2.min_calls = Some(1);
-                v.push(c09::C09 { cfg: cfg2, callers: permitted + 2, max_ticks: 4, max_drops: 1, prepared: false, straggler: false, nested: 0, grid: 10 });
+                v.push(c09::C09 { cfg: cfg2, callers: permitted + 2, max_ticks: 4, max_drops: 1, prepared: false, straggler: false, nested: 0, grid: 10, max_force: 0 });
             }
         }
     }
